@@ -9,6 +9,8 @@ generated definition   source
   g_umi_eq             Fragment.umi_eq            guard chain (equal UMI, distance-0 shortcut, length, hamming <= d)
   g_nla_eq             NlaIIIFragment.__eq__      guard chain (match_hash, umi_eq)
   g_chic_eq            CHICFragment.__eq__        guard chain (match_hash, site_location None, radius test, umi_eq)
+  g_mol_span_ok        Molecule.has_valid_span    guard chain over `spanStart is not None`, `spanEnd is not None` (a span that
+                                                  starts at reference position 0 is valid)
   g_nla_hash           NlaIIIFragment.__init__ + set_site   the match_hash tuple with self.strand / self.cut_site_strand /
   g_chic_hash          CHICFragment.__init__ + set_site     self.site_location replaced by what set_site stores in them
   g_tag_tf, g_tag_af   Molecule.write_tags        second argument of set_meta('TF', .) / set_meta('af', .)
@@ -374,6 +376,9 @@ def _regen(out, repo):
                      'other.site_location is None': 'o_site_none', 'self.assignment_radius': 'radius',
                      'self.site_location[1]': 's_site', 'other.site_location[1]': 'o_site', 'self.umi_eq(other)': 'umi_ok'},
                     'g_chic_eq', '(hash_differ s_site_none o_site_none umi_ok : bool) (radius s_site o_site : Z)'))
+    add(guard_chain(repo, MOL, 'Molecule.has_valid_span',
+                    {'self.spanStart is not None': 'start_set', 'self.spanEnd is not None': 'end_set'},
+                    'g_mol_span_ok', '(start_set end_set : bool)'))
     add(match_hash(repo, NLA, 'NlaIIIFragment', 'g_nla_hash'))
     add(match_hash(repo, CHIC, 'CHICFragment', 'g_chic_hash'))
     c, m = write_tags(repo)
